@@ -4,6 +4,9 @@ import os, sys, json, time, random, importlib, multiprocessing as mp, traceback,
 
 ROOT = os.path.dirname(os.path.dirname(os.path.abspath(__file__)))
 sys.path.insert(0, ROOT)
+_repo = os.environ.get('PYPOSE_REPO', '/repo')
+if os.path.abspath(_repo) != '/repo':
+    sys.path.insert(0, os.path.abspath(_repo))      # scratch copy: the concrete twin must import it too
 from pvc import registry as R, loader as LD
 
 LEVELS = json.load(open(os.path.join(ROOT, 'levels.json'))) if os.path.exists(os.path.join(ROOT, 'levels.json')) else {}
@@ -52,10 +55,12 @@ def main(argv):
     with ctxm.Pool(nproc, maxtasksperchild=1) as pool:
         asyncs = [(o, pool.apply_async(R.run_ob, ((o.name, tier, seed, modname),))) for o in obs]
         basyncs = [(o, pool.apply_async(_run_bounded, ((o.name, tier, seed, modname),))) for o in bnd]
-        budget = meta.get('timeout_s', {}).get(tier, 900 if tier == 'quick' else 3600)
+        budget = meta.get('timeout_s', {}).get(tier, 420 if tier == 'quick' else 3600)
         for o, a in asyncs:
             try:
-                results.append(a.get(timeout=max(5, budget - (time.time() - t0))))
+                lim = o.opts.get('timeout', 200 if tier == 'quick' else 1800)
+                left = budget - (time.time() - t0)
+                results.append(a.get(timeout=max(5, min(left, lim - (time.time() - t0) if lim > (time.time() - t0) else 5))))
             except mp.TimeoutError:
                 results.append(dict(name=o.name, status='undecided', why='time budget exceeded', functions=o.functions,
                                     canary=bool(o.opts.get('canary')), verdicts={}, wall=budget))
